@@ -229,14 +229,24 @@ void profile_hist(Gen &g, bool invalid_heavy, bool copy_heavy) {
 // simplex keeps between calls - LU factors, basis, pricing norms, work arrays - meets a problem that changed under it
 void profile_resolve(Gen &g) {
 	Plan &p = g.p; Rng &r = g.r;
-	p.lps.push_back(g.gen_lp(0, g.longrun ? 9 : 6, g.longrun ? 9 : 6));
+	bool fileobj = r.chance(1, 3) && g.ok("resolve:fileobj");
+	p.lps.push_back(fileobj ? g.gen_lp(0, 9, 9, 3, 4) : g.gen_lp(0, g.longrun ? 9 : 6, g.longrun ? 9 : 6));
 	Op cr = g.gen_create(0, 1); if (cr.s("how") == "empty") g.set(cr, "how", "load"); p.ops.push_back(cr);
-	int np = r.range(0, 2); for (int k = 0; k < np; k++) { Op o = g.gen_param(0); g.seti(o, "o", 0); p.ops.push_back(o); }
+	// one plan in three works on an object that came out of a file reader (the readers build problems their own way - with a row-wise copy of
+	// the matrix next to the column-wise one - and every edit has to keep such an object consistent too)
+	long oi = 0;
+	if (fileobj) { Op w = g.mk(0, "write"); g.seti(w, "o", 0); g.set(w, "fmt", r.chance(1, 2) ? "LP" : "MPS"); g.set(w, "via", "path"); g.set(w, "path", "seed0"); g.seti(w, "comp", 0); p.ops.push_back(w);
+		Op rd = g.mk(0, "read"); g.seti(rd, "pick", -1); g.set(rd, "via", r.chance(1, 4) ? "reader" : "path"); p.ops.push_back(rd); oi = 1;
+		// the edits that change the matrix rebuild the row-wise copy; the ones that only touch a logical column or the vectors come first here
+		int k = r.range(1, 3); for (int t = 0; t < k; t++) { Op e = g.mk(0, "edit"); g.seti(e, "o", 1); static const char *w[] = {"chgsense", "chgsense", "chgsenses", "chgrange", "chgrhs", "chgbound", "chgobj"}; std::string what = w[r.below(7)]; g.set(e, "what", what);
+			g.seti(e, "i", r.below(30)); g.seti(e, "j", r.below(30)); g.set(e, "v", what == "chgrange" ? g.pos() : g.num()); g.set(e, "lu", std::string(1, "LUB"[r.below(3)])); g.set(e, "sense", std::string(1, "LGER"[r.below(4)])); g.set(e, "list", std::to_string(r.below(30)) + "," + std::to_string(r.below(30))); g.set(e, "senses", std::string(1, "LGER"[r.below(4)]) + std::string(1, "LGER"[r.below(4)])); p.ops.push_back(e); }
+		if (r.chance(1, 2)) { Op sc = g.mk(0, "param"); g.seti(sc, "o", 1); g.set(sc, "what", "scaling"); g.seti(sc, "v", 0); p.ops.push_back(sc); } }
+	int np = r.range(0, 2); for (int k = 0; k < np; k++) { Op o = g.gen_param(0); g.seti(o, "o", oi); p.ops.push_back(o); }
 	// every pricing rule keeps its own state between calls (norms, reference frames, buckets): half of the plans leave the defaults
-	if (r.chance(1, 2)) { Op o = g.mk(0, "param"); g.seti(o, "o", 0); g.set(o, "what", "dprice"); g.seti(o, "v", r.below(4)); p.ops.push_back(o); }
-	if (r.chance(1, 2)) { Op o = g.mk(0, "param"); g.seti(o, "o", 0); g.set(o, "what", "pprice"); g.seti(o, "v", r.below(4)); p.ops.push_back(o); }
+	if (r.chance(1, 2)) { Op o = g.mk(0, "param"); g.seti(o, "o", oi); g.set(o, "what", "dprice"); g.seti(o, "v", r.below(4)); p.ops.push_back(o); }
+	if (r.chance(1, 2)) { Op o = g.mk(0, "param"); g.seti(o, "o", oi); g.set(o, "what", "pprice"); g.seti(o, "v", r.below(4)); p.ops.push_back(o); }
 	int rounds = g.longrun ? r.range(10, 40) : r.range(2, 8);
-	auto direct = [&]() { Op o = g.gen_solve(0, r.chance(1, 8) ? "exact" : r.chance(1, 2) ? "primal" : "dual"); g.seti(o, "o", 0); o.a.erase("warm"); return o; };
+	auto direct = [&]() { Op o = g.gen_solve(0, r.chance(1, 8) ? "exact" : r.chance(1, 2) ? "primal" : "dual"); g.seti(o, "o", oi); o.a.erase("warm"); return o; };
 	p.ops.push_back(direct());
 	for (int k = 0; k < rounds; k++) {
 		int ne = r.chance(2, 3) ? 1 : r.range(2, 3);
@@ -244,25 +254,25 @@ void profile_resolve(Gen &g) {
 		// solve often enough that every kind of row (ranged at either end, equality, basic, non-basic) gets deleted with a live cache
 		if (r.chance(1, 5)) {
 			// ... and sometimes another basis is loaded in between: the rows that are basic in it are not the rows that were basic when the solution was computed
-			if (r.chance(1, 3)) { Op mkb = g.mk(0, "basis"); g.seti(mkb, "o", 0); g.set(mkb, "what", "make"); g.seti(mkb, "pat", r.chance(1, 3) ? -1 : (long)r.below(100000)); p.ops.push_back(mkb); Op ld = g.mk(0, "basis"); g.seti(ld, "o", 0); g.set(ld, "what", r.chance(1, 2) ? "load" : "loadarray"); g.seti(ld, "k", -1); p.ops.push_back(ld); }
-			Op d = g.mk(0, "edit"); g.seti(d, "o", 0); g.set(d, "what", std::vector<std::string>{"delrow", "delnamedrow", "delrows", "delsetrows"}[r.below(4)]); g.seti(d, "i", r.below(30)); g.set(d, "list", std::to_string(r.below(30))); p.ops.push_back(d); }
-		for (int e = 0; e < ne; e++) { Op ed = g.gen_edit(0); g.seti(ed, "o", 0);
-			if (r.chance(1, 2)) { static const char *w[] = {"chgcoef", "chgcoef", "chgcoef", "chgobj", "chgrhs", "chgbound", "chgsense", "chgrange"}; Op e2 = g.mk(0, "edit"); g.seti(e2, "o", 0); std::string what = w[r.below(8)]; g.set(e2, "what", what);
+			if (r.chance(1, 3)) { Op mkb = g.mk(0, "basis"); g.seti(mkb, "o", oi); g.set(mkb, "what", "make"); g.seti(mkb, "pat", r.chance(1, 3) ? -1 : (long)r.below(100000)); p.ops.push_back(mkb); Op ld = g.mk(0, "basis"); g.seti(ld, "o", oi); g.set(ld, "what", r.chance(1, 2) ? "load" : "loadarray"); g.seti(ld, "k", -1); p.ops.push_back(ld); }
+			Op d = g.mk(0, "edit"); g.seti(d, "o", oi); g.set(d, "what", std::vector<std::string>{"delrow", "delnamedrow", "delrows", "delsetrows"}[r.below(4)]); g.seti(d, "i", r.below(30)); g.set(d, "list", std::to_string(r.below(30))); p.ops.push_back(d); }
+		for (int e = 0; e < ne; e++) { Op ed = g.gen_edit(0); g.seti(ed, "o", oi);
+			if (r.chance(1, 2)) { static const char *w[] = {"chgcoef", "chgcoef", "chgcoef", "chgobj", "chgrhs", "chgbound", "chgsense", "chgrange"}; Op e2 = g.mk(0, "edit"); g.seti(e2, "o", oi); std::string what = w[r.below(8)]; g.set(e2, "what", what);
 				g.seti(e2, "i", r.below(30)); g.seti(e2, "j", r.below(30)); g.set(e2, "v", r.chance(1, 6) ? "0" : what == "chgrange" ? g.pos() : g.num()); g.set(e2, "lu", std::string(1, "LUB"[r.below(3)])); g.set(e2, "sense", std::string(1, "LGER"[r.below(4)])); ed = e2; }
 			p.ops.push_back(ed); }
 		if (r.chance(1, 6)) {   // the cutting-plane step: k rows in, k columns out (or the reverse) - the simplex column count stays, the row count moves
 			int kk = r.range(1, 2); bool rows_in = r.chance(2, 3);
-			for (int t = 0; t < kk; t++) { Op e; for (int q = 0; q < 60; q++) { e = g.gen_edit(0); std::string w = e.s("what"); if (rows_in ? (w == "addrow" || w == "newrow") : (w == "addcol" || w == "newcol")) break; } g.seti(e, "o", 0); p.ops.push_back(e); }
-			for (int t = 0; t < kk; t++) { Op e = g.mk(0, "edit"); g.seti(e, "o", 0); g.set(e, "what", rows_in ? "delcol" : "delrow"); g.seti(e, "i", r.below(30)); g.seti(e, "j", r.below(30)); p.ops.push_back(e); }
+			for (int t = 0; t < kk; t++) { Op e; for (int q = 0; q < 60; q++) { e = g.gen_edit(0); std::string w = e.s("what"); if (rows_in ? (w == "addrow" || w == "newrow") : (w == "addcol" || w == "newcol")) break; } g.seti(e, "o", oi); p.ops.push_back(e); }
+			for (int t = 0; t < kk; t++) { Op e = g.mk(0, "edit"); g.seti(e, "o", oi); g.set(e, "what", rows_in ? "delcol" : "delrow"); g.seti(e, "i", r.below(30)); g.seti(e, "j", r.below(30)); p.ops.push_back(e); }
 		}
-		if (r.chance(1, 8)) { Op o = g.gen_param(0); g.seti(o, "o", 0); p.ops.push_back(o); }
+		if (r.chance(1, 8)) { Op o = g.gen_param(0); g.seti(o, "o", oi); p.ops.push_back(o); }
 		// the application keeps its own basis (column generation, cutting planes): a basis of the present dimensions is made and loaded, so
 		// the next solve takes the "basis passed in, pricing information kept" path with whatever the edits left of the norms
-		if (r.chance(1, 4)) { Op mkb = g.mk(0, "basis"); g.seti(mkb, "o", 0); g.set(mkb, "what", "make"); g.seti(mkb, "pat", r.chance(1, 3) ? -1 : (long)r.below(100000)); p.ops.push_back(mkb);
-			Op ld = g.mk(0, "basis"); g.seti(ld, "o", 0); g.set(ld, "what", r.chance(1, 2) ? "load" : "loadarray"); g.seti(ld, "k", -1); p.ops.push_back(ld); }
+		if (r.chance(1, 4)) { Op mkb = g.mk(0, "basis"); g.seti(mkb, "o", oi); g.set(mkb, "what", "make"); g.seti(mkb, "pat", r.chance(1, 3) ? -1 : (long)r.below(100000)); p.ops.push_back(mkb);
+			Op ld = g.mk(0, "basis"); g.seti(ld, "o", oi); g.set(ld, "what", r.chance(1, 2) ? "load" : "loadarray"); g.seti(ld, "k", -1); p.ops.push_back(ld); }
 		Op s = direct(); if (g.faults && r.chance(1, 4)) g.add_interruption(s); p.ops.push_back(s);
-		if (r.chance(1, 5) && g.ok("tableau")) { Op t = g.mk(0, "tableau"); g.seti(t, "o", 0); p.ops.push_back(t); }
-		if (r.chance(1, 10) && g.ok("pivotin")) { Op o = g.mk(0, "pivotin"); g.seti(o, "o", 0); g.set(o, "what", r.chance(1, 2) ? "row" : "col"); g.seti(o, "a", r.below(50)); g.seti(o, "cnt", r.range(1, 3)); p.ops.push_back(o); }
+		if (r.chance(1, 5) && g.ok("tableau")) { Op t = g.mk(0, "tableau"); g.seti(t, "o", oi); p.ops.push_back(t); }
+		if (r.chance(1, 10) && g.ok("pivotin")) { Op o = g.mk(0, "pivotin"); g.seti(o, "o", oi); g.set(o, "what", r.chance(1, 2) ? "row" : "col"); g.seti(o, "a", r.below(50)); g.seti(o, "cnt", r.range(1, 3)); p.ops.push_back(o); }
 	}
 	p.knobs["indep"] = "0";
 }
